@@ -34,4 +34,31 @@ SHORTEST = dict(
     elem_addr_as_index=["vs"],
 )
 
-JOBS = {"shortest": SHORTEST}
+# ---- the relax loop of dijkstra(s, vs, d): ONE statement of the function (the `for` over u's neighbours inside the
+# `while (!Q.isEmpty())` loop) translated as a function of its free variables `vs`, `Q`, `u` (job option `fragment`).
+# `Node<T>*` = index into `vs` (`ptr_index`: `v->d` = `vs[v].d`); the heap type stays abstract (`H`) and
+# `Q.decreaseKey(v->qnode, v)` is an uninterpreted state transformer `decKey Q v vs` (it reads the new key `v->d` itself).
+_SHIM2 = """#include "libcola/shortest_paths.h"
+template void shortest_paths::dijkstra<double>(unsigned const, std::vector<shortest_paths::Node<double> >&, double*);
+"""
+_DIST2 = dict(_DIST, ops=dict(_DIST["ops"], **{">": "(ltDist {1} {0})"}))
+RELAX = dict(
+    src="cola/libcola/shortest_paths.h", shim=_SHIM2,
+    ns="AdaptaVerif.Gen.DijkstraRelaxK", out="lean/AdaptaVerif/Gen/DijkstraRelaxK.lean",
+    imports=["AdaptaVerif.Gen.PreludeLoops", "AdaptaVerif.Model.ShortestPaths", "AdaptaVerif.Gen.KeysShortest"],
+    opens=["AdaptaVerif.Model.ShortestPaths (Dist oadd omin)", "AdaptaVerif.Model.PairingHeap (ltDist)", "AdaptaVerif.Gen.KeysShortest"],
+    functions=["dijkstra"], lean_names={"dijkstra": "dijkstra_relax"},
+    sig_contains={"dijkstra": "std::vector<Node<double>> &"},
+    fragment={"dijkstra": dict(kind="ForStmt", within="WhileStmt", nth=0)},
+    types={"double": "Dist"}, num={"Dist": _DIST2},
+    qual_types={"std::vector<Node<double>>": ("Array NodeK", "state"),
+                "PairingHeap<Node<double> *, CompareNodes<double>>": ("H", "state")},
+    type_params=["H"],
+    ptr_index={"Node<double>": "vs"},
+    fields={("NodeK", "neighbours"): "List Nat", ("NodeK", "nweights"): "List Dist", ("NodeK", "d"): "Dist"},
+    skip_member_writes=["p"],
+    state_methods={"decreaseKey": dict(fn="decKey", skip_args=[0], extra_vars=["vs"])},
+    extra_params={"dijkstra_relax": [("decKey", "H → Nat → Array NodeK → H")]},
+)
+
+JOBS = {"shortest": SHORTEST, "dijkstra_relax": RELAX}
